@@ -409,7 +409,7 @@ class Gen:
         self.nu = self.nb = self.na = self.nc = 0
         self.vars = ["x", "y", "s", "b"]
         self.stats = {"if": 0, "while": 0, "do": 0, "break": 0, "continue": 0, "exec": 0, "set": 0, "depth": 0}
-        nsubs = rng.choice([0, 0, 1, 1, 2, 3])
+        nsubs = rng.choice([0, 0, 1, 1, 2, 2, 3, 3, 4])
         self.sub_names = [f"sub {chr(ord('a') + i)}" for i in range(nsubs)]
         subs = []
         # subflow i may only call subflows j > i (no recursion)
@@ -422,6 +422,15 @@ class Gen:
                 self.stats["do"] += 1
             elif rng.random() < 0.3:
                 body.insert(0, ["user", self.user()])
+            # tail calls: the LAST statement of a subflow is a `do` (chains sub a -> sub b -> ...),
+            # possibly after statements that do not block
+            if self.callable and rng.random() < 0.45:
+                nxt = self.callable[0] if rng.random() < 0.6 else rng.choice(self.callable)
+                body.append(["do", nxt])
+                self.stats["do"] += 1
+                self.stats["tail_do"] = self.stats.get("tail_do", 0) + 1
+                if rng.random() < 0.25:
+                    body.append(self.setstmt())
             subs.insert(0, [self.sub_names[i], body])
         self.callable = list(self.sub_names)
         maxd = rng.choice([1, 2, 2, 3, 3, 4])
@@ -429,6 +438,11 @@ class Gen:
         if rng.random() < 0.75:
             main += self.inits()
         main += self.block(maxd, rng.randint(1, 5), False, False)
+        # a call whose caller has more to do afterwards
+        if self.sub_names and rng.random() < 0.6:
+            pos = rng.randint(1, len(main))
+            main[pos:pos] = [["do", rng.choice(self.sub_names[:2])], rng.choice([["bot", self.botn()], ["user", self.user()]])]
+            self.stats["do"] += 1
         return {"id": "main flow", "main": main, "subs": subs, "stats": dict(self.stats)}
 
     def user(self):
@@ -534,6 +548,10 @@ class Gen:
                 out.append(["do", "main flow"])
             else:
                 out.append(["bot", self.botn()])
+        if self.callable and rng.random() < 0.12:
+            self.stats["do"] += 1
+            self.stats["tail_do"] = self.stats.get("tail_do", 0) + 1
+            out.append(["do", rng.choice(self.callable)])
         return out
 
 
@@ -661,6 +679,7 @@ class Oracle:
         return t == "InternalSystemActionFinished" and ev["status"] == "success" and ev["action_name"] == w[1]
 
     def advance(self):
+        before = self.depth
         try:
             self.wait = next(self.gen)
             self.next = self.wait if self.actionable(self.wait) else None
@@ -670,6 +689,8 @@ class Oracle:
             self.gen = None
             self.wait = None
             self.next = None
+        if before - self.depth >= 2:
+            self.flags.add("stack-unwound-two-levels")
 
     def run(self, history):
         """-> ("steps", [...]) | ("raise",) ; also leaves self.wait (what the flow waits on), self.flags."""
@@ -711,6 +732,8 @@ class Oracle:
                 elif self.matches(self.wait, ev):
                     self.advance()
                 elif self.actionable(self.wait):
+                    if self.depth >= 2:
+                        self.flags.add("stack-unwound-two-levels")
                     self.gen.close()
                     self.gen, self.wait = None, None
                 if t == "BotIntent" and ev["intent"] == "stop":
@@ -740,42 +763,88 @@ class Oracle:
 # =======================================================================================
 # histories
 
+def follow_step(rng, prog, oracle, h, noise=1.0):
+    """Append to h the event(s) the flow waits for (as the runtime would produce them)."""
+    first = prog["main"][0][1]
+    r = oracle.run(h)
+    if r[0] == "raise":
+        return False
+    w = oracle.wait
+    if w is None:
+        if rng.random() < 0.3 * noise:
+            h.append({"type": "UtteranceUserActionFinished", "final_transcript": "hi"})
+        if rng.random() < 0.2 * noise:
+            h.append({"type": "UserMessage", "text": "hi"})
+        h.append({"type": "UserIntent", "intent": first})
+        return True
+    # the runtime appends the ContextUpdate it returned
+    if r[1] and r[1][0][0] == "ctx" and rng.random() < 0.7:
+        h.append({"type": "ContextUpdate", "data": {k: v for k, v in r[1][0][1]}})
+    if w[0] == "user":
+        if rng.random() < 0.25 * noise:
+            h.append({"type": "UtteranceUserActionFinished", "final_transcript": "t"})
+        h.append({"type": "UserIntent", "intent": w[1]})
+    elif w[0] == "bot":
+        h.append({"type": "BotIntent", "intent": w[1]})
+        if rng.random() < 0.25 * noise:
+            h.append({"type": "StartUtteranceBotAction", "script": "s"})
+    else:
+        h.append({"type": "StartInternalSystemAction", "action_name": w[1], "action_params": w[2],
+                  "action_result_key": w[3]})
+        if w[3] is not None and rng.random() < 0.85:
+            val = rng.choice([1, 0, True, False, None, "a", "", [1, 2], 2])
+            h.append({"type": "ContextUpdate", "data": {w[3]: val}})
+        h.append({"type": "InternalSystemActionFinished", "action_name": w[1], "status": "success"})
+    return True
+
+
+def gen_leave_family(rng, prog, oracle, dist, max_points=8):
+    """One walk that follows the flow; at every point where the flow waits INSIDE a subflow (call
+    depth >= 1) a history that leaves there (unknown / other known user intent / wrong bot
+    intent), then comes back: the first intent again and two more steps.  Prefixes are shared
+    with the walk, so each leave point costs only a few new cases."""
+    users, bots, _acts = prog_intents(prog)
+    first = prog["main"][0][1]
+    walk, out, points = [], [], []
+    for _ in range(16):
+        if not follow_step(rng, prog, oracle, walk, noise=0.0):
+            break
+        r = oracle.run(walk)
+        if r[0] == "raise":
+            break
+        if oracle.wait is not None and oracle.depth >= 1:
+            points.append((len(walk), oracle.depth))
+    out.append(list(walk))
+    if len(points) > max_points:
+        # keep the deepest points, then a random sample of the others
+        points.sort(key=lambda t: -t[1])
+        points = points[:max_points // 2] + rng.sample(points[max_points // 2:], max_points - max_points // 2)
+    for n, depth in points:
+        h = list(walk[:n])
+        kind = rng.choice(["leave-unknown", "leave-known", "wrong-bot"])
+        dist["nested-" + kind] = dist.get("nested-" + kind, 0) + 1
+        dist["nested-leave-depth-%d" % min(depth, 4)] = dist.get("nested-leave-depth-%d" % min(depth, 4), 0) + 1
+        if kind == "leave-unknown" or (kind == "leave-known" and not users):
+            h.append({"type": "UserIntent", "intent": "ask unknown"})
+        elif kind == "leave-known":
+            h.append({"type": "UserIntent", "intent": rng.choice(users)})
+        else:
+            h.append({"type": "BotIntent", "intent": rng.choice(bots + ["say unknown"])})
+        h.append({"type": "UserIntent", "intent": first})
+        for _ in range(2):
+            if not follow_step(rng, prog, oracle, h, noise=0.0):
+                break
+        out.append(h[:48])
+    return out
+
+
 def gen_history(rng, prog, oracle, dist):
     users, bots, acts = prog_intents(prog)
     h = []
     first = prog["main"][0][1]
 
     def follow_one():
-        r = oracle.run(h)
-        if r[0] == "raise":
-            return False
-        w = oracle.wait
-        if w is None:
-            if rng.random() < 0.3:
-                h.append({"type": "UtteranceUserActionFinished", "final_transcript": "hi"})
-            if rng.random() < 0.2:
-                h.append({"type": "UserMessage", "text": "hi"})
-            h.append({"type": "UserIntent", "intent": first})
-            return True
-        # the runtime appends the ContextUpdate it returned
-        if r[1] and r[1][0][0] == "ctx" and rng.random() < 0.7:
-            h.append({"type": "ContextUpdate", "data": {k: v for k, v in r[1][0][1]}})
-        if w[0] == "user":
-            if rng.random() < 0.25:
-                h.append({"type": "UtteranceUserActionFinished", "final_transcript": "t"})
-            h.append({"type": "UserIntent", "intent": w[1]})
-        elif w[0] == "bot":
-            h.append({"type": "BotIntent", "intent": w[1]})
-            if rng.random() < 0.25:
-                h.append({"type": "StartUtteranceBotAction", "script": "s"})
-        else:
-            h.append({"type": "StartInternalSystemAction", "action_name": w[1], "action_params": w[2],
-                      "action_result_key": w[3]})
-            if w[3] is not None and rng.random() < 0.85:
-                val = rng.choice([1, 0, True, False, None, "a", "", [1, 2], 2])
-                h.append({"type": "ContextUpdate", "data": {w[3]: val}})
-            h.append({"type": "InternalSystemActionFinished", "action_name": w[1], "status": "success"})
-        return True
+        return follow_step(rng, prog, oracle, h)
 
     def tail():
         kind = rng.choice(["continue", "continue", "leave-known", "leave-known", "leave-unknown", "repeat",
@@ -1000,6 +1069,8 @@ def classify(prog, hist, oracle_flags, impl, want):
         return "flow-finished-in-starting-event-stays-active"
     if "nested-call-blocked" in oracle_flags:
         return "statement-after-nested-do-proposed-while-subflow-waits"
+    if "stack-unwound-two-levels" in oracle_flags:
+        return "caller-not-resumed-after-nested-subflows-unwind"
     if impl[0] == "raise" and want[0] != "raise":
         return "unexpected-exception"
     return "next-step-differs-from-structured-semantics"
@@ -1055,6 +1126,11 @@ def run(tier, seed, replay=None):
         for _ in range(n_hist):
             try:
                 hs.append(gen_history(rng, p, orc, dist))
+            except OracleBudget:
+                dist["oracle-budget"] = dist.get("oracle-budget", 0) + 1
+        if p["stats"].get("do", 0) > 0:
+            try:
+                hs += gen_leave_family(rng, p, orc, dist, max_points=8 if tier == "quick" else 16)
             except OracleBudget:
                 dist["oracle-budget"] = dist.get("oracle-budget", 0) + 1
         progs.append({"prog": p, "histories": hs, "origin": "gen"})
@@ -1258,7 +1334,7 @@ def run(tier, seed, replay=None):
     if tier == "thorough" and not replay and okm:
         shipped = shipped_check(out, rng)
 
-    st = {"if": 0, "while": 0, "do": 0, "break": 0, "continue": 0, "exec": 0, "set": 0}
+    st = {"if": 0, "while": 0, "do": 0, "tail_do": 0, "break": 0, "continue": 0, "exec": 0, "set": 0}
     depths = {}
     for pe in progs:
         for k in st:
